@@ -39,14 +39,15 @@ def gen_op(rng, force_adjacent=False):
     if level == 'geom':
         k = rng.random()
         if k < 0.3 and not force_adjacent:
-            return dict(base, op='geom', gi=P(), how=rng.choice(['src_add', 'src_add', 'src_remove', 'src_data', 'attr', 'revertex']),
-                        front=rng.random() < 0.5)
+            return dict(base, op='geom', gi=P(), how=rng.choice(['src_add', 'src_add', 'src_remove', 'src_remove_many', 'src_remove_many',
+                                                                 'src_data', 'attr', 'revertex', 'revertex']),
+                        front=rng.random() < 0.5, some=rng.random() < 0.5, n=rng.choice([2, 2, 3, 5]))
         return dict(base, op='geom', gi=P(), how='prim_' + how, kind=rng.choice([None, 'triangles', 'polylist', 'polygons', 'lines']))
     if level == 'node_tr':
         return dict(base, op='node', ni=P(), how='tr_' + how, kind=rng.choice([None, 'translate', 'rotate', 'scale', 'matrix', 'lookat']))
     if level == 'node_ch':
-        if rng.random() < 0.15 and not force_adjacent:
-            return dict(base, op='node', ni=P(), how=rng.choice(['ch_moveto', 'attr']))
+        if rng.random() < 0.25 and not force_adjacent:
+            return dict(base, op='node', ni=P(), how=rng.choice(['ch_moveto', 'attr', 'attr']))
         return dict(base, op='node', ni=P(), how='ch_' + how, what=rng.choice(['node', 'geom', 'geom', 'light', 'camera', 'nodeinst']))
     if level == 'scene':
         if rng.random() < 0.15 and not force_adjacent:
@@ -99,8 +100,12 @@ def gen_cycle(rng):
 
 
 def gen_case(rng, maxlen, files_fraction=0.2):
-    if rng.random() < files_fraction:
+    k0 = rng.random()
+    if k0 < files_fraction * 0.5:
         base = {'kind': 'file', 'name': rng.choice(FILES)}
+    elif k0 < files_fraction * 1.5:
+        # an independently generated document (harness/gen/xmldocs.py), loaded
+        base = {'kind': 'xmldoc', 'seed': rng.randrange(1 << 30), 'size': rng.choice([0, 1, 1, 2])}
     else:
         base = {'kind': 'gen', 'seed': rng.randrange(1 << 30), 'size': rng.choice([1, 2, 2, 3])}
         if rng.random() < 0.3:
